@@ -140,21 +140,48 @@ Definition strres_eqb (a b : strres) : bool :=
 (** schedules tried when the detector's answer set is not a singleton: first entry number c at every range *)
 Definition sched_family : list sched := map (fun c => const_sched [c] 8) [0; 1; 2; 3]%nat.
 
+(** * Generated program parts (so that cases.v stays small)
+    [build_map n]: a new map with n distinct 2-byte keys (key i = 7919*i mod 2^16, little endian:
+    distinct because 7919 is odd; unrelated to insertion order), value i mod 16, left on the
+    evaluation stack. The driver emits the same instructions (harness/drivers/c15: buildMap). *)
+Definition big_key (i : nat) : bytes := let k := (N.of_nat i * 7919) mod 65536 in [k mod 256; k / 256].
+Definition build_map (n : nat) : list instr :=
+  [INewMap; IToAlt] ++
+  flat_map (fun i => [IPushInt (Z.of_nat (i mod 16)); IDupFromAlt; ISwap; IPushBytes (big_key i); ISwap; ISetItem]) (seq 0 n) ++
+  [IFromAlt].
+
+(** [quadruple]: [x ..] -> [Serialize [x; x; x; x] ..] (four references to the same value) *)
+Definition quadruple : list instr :=
+  [IDup; IDup; IDup; IPushInt 0; INewArray; IToAlt;
+   IDupFromAlt; ISwap; IAppend; IDupFromAlt; ISwap; IAppend; IDupFromAlt; ISwap; IAppend; IDupFromAlt; ISwap; IAppend;
+   IFromAlt; ISerialize].
+Fixpoint quadruples (r : nat) : list instr := match r with O => [] | S k => quadruple ++ quadruples k end.
+
 Inductive case :=
 | CRun (fuel : nat) (prog : list instr) (obs : list outcome)
     (* distinct outcomes of the repeated invocations *)
+| CRunBig (fuel : nat) (n : N) (tail : list instr) (obs : list outcome)
+    (* program = build_map n ++ tail *)
+| CRunQuad (fuel : nat) (head : list instr) (r : N) (tail : list instr) (obs : list outcome)
+    (* program = head ++ r times quadruple ++ tail *)
 | CStringify (fuel : nat) (prog : list instr) (obs : list strres).
     (* distinct results of VmValue.Stringify on the value the program returns *)
 
+(** outside the finding class the single outcome of the model must be the only one observed
+    (it is then the only member of [run_any]'s set as well); inside, every observed outcome must be
+    a member of the set *)
+Definition run_ok (fuel : nat) (prog : list instr) (obs : list outcome) : bool :=
+  negb (match obs with [] => true | _ => false end) &&
+  match run_ref fuel prog st0 with
+  | Some o => forallb (outcome_matches o) obs && (length obs =? 1)%nat
+  | None => forallb (run_any fuel prog st0) obs
+  end.
+
 Definition case_ok (c : case) : bool :=
   match c with
-  | CRun fuel prog obs =>
-    negb (match obs with [] => true | _ => false end) &&
-    forallb (run_any fuel prog st0) obs &&
-    match run_ref fuel prog st0 with
-    | Some o => forallb (outcome_matches o) obs && (length obs =? 1)%nat
-    | None => true
-    end
+  | CRun fuel prog obs => run_ok fuel prog obs
+  | CRunBig fuel n tail obs => run_ok fuel (build_map (N.to_nat n) ++ tail) obs
+  | CRunQuad fuel head r tail obs => run_ok fuel (head ++ quadruples (N.to_nat r) ++ tail) obs
   | CStringify fuel prog obs =>
     match exec_ref fuel prog st0 with
     | Some st =>
